@@ -244,6 +244,12 @@ def setup(ctx):
     for n in NUM_BUILTINS:
         if n in F:
             F[n] = W.builtin(n, F[n])
+    # entries the pinned table does not have are judged like the numeric builtins (a number computed from numbers obeys the same bound) and get a workload
+    from lib import gram
+    ctx.new_entries = sorted(n for n in F if n not in gram.PINNED_TABLE)
+    for n in ctx.new_entries:
+        F[n] = W.builtin(n, F[n])
+    ctx.count('table_entries_unknown_to_the_pinned_tree_judged_as_numeric_builtins', len(ctx.new_entries))
     if '__setitem_with_op__' in F:
         F['__setitem_with_op__'] = W.setitem_with_op(F['__setitem_with_op__'])
 
@@ -282,6 +288,14 @@ def cases(ctx):
     if ctx.shard == ctx.nshards - 1:
         yield ('repo-tests', '', {})
     yield ('cgf', rnd.getrandbits(30), ctx.scale(5, 100))          # coverage-guided programs, one fuzzing process per worker
+    for name in getattr(ctx, 'new_entries', ()):
+        for a in POOL:
+            for b in rnd.sample(POOL, 6):
+                if n % ctx.nshards == ctx.shard:
+                    yield ('src', '[%s(a), %s(a, b), %s([a, b]), %s([a, b, a, b])]' % ((name,) * 4) if False else '%s(a, b)' % name, {'a': a, 'b': b})
+                    yield ('src', '%s([a, b, a, b, a])' % name, {'a': a, 'b': b})
+                    yield ('src', '%s(a)' % name, {'a': a})
+                n += 1
     # directed witnesses (kept in the workload so the mechanisms are always exercised)
     if ctx.shard == 0:
         yield ('src', 'x = "ab"\nx *= len(x)\nx', {})
